@@ -23,6 +23,8 @@ pub struct Config {
     /// R-state: calls of these methods / paths get `state_arg` appended as last argument
     /// R-match on `o.map(|p| body)` (opt-in: only where the receiver is an Option)
     pub rmatch_map: bool,
+    /// R-match (opt-in): `e.map(Ok)` on a Result
+    pub rmatch_map_ok: bool,
     /// R-dropstmt: statements (by normalized text prefix) removed from a fragment; each removal is recorded
     pub drop_stmts: Vec<String>,
     /// R-for: `for P in E { B }` -> `{ let mut it = E; let ghost it0 = it; loop { match it.next() { Some(P) => { B } None => { break; } } } }`
@@ -68,6 +70,7 @@ impl Config {
             rop: v["rop"].as_bool().unwrap_or(true),
             rderef: v["rderef"].as_bool().unwrap_or(true),
             rmatch_map: v["rmatch_map"].as_bool().unwrap_or(false),
+            rmatch_map_ok: v["rmatch_map_ok"].as_bool().unwrap_or(false),
             drop_stmts: strs(&v["drop_stmts"]).iter().map(|s| norm(s)).collect(),
             rfor: v["rfor"].as_bool().unwrap_or(false),
             ralloc: v["ralloc"].as_bool().unwrap_or(false),
@@ -1061,6 +1064,28 @@ impl<'a, 'ast> Visit<'ast> for Rewriter<'a> {
                             Piece::Lit(") => Some(".into()),
                             Piece::Src(br.0, br.1),
                             Piece::Lit(") })".into()),
+                        ],
+                        "R-match",
+                    );
+                    self.note("R-match", m.span());
+                    return;
+                }
+            }
+        }
+        if self.cfg.rmatch_map_ok && name == "map" && m.args.len() == 1 {
+            // R-match: `e.map(Ok)` on a Result -> `match e { Ok(v) => Ok(Ok(v)), Err(x) => Err(x) }` (a datatype
+            // constructor used as a function value is outside Verus' dialect)
+            if let Expr::Path(p) = &m.args[0] {
+                if p.path.is_ident("Ok") {
+                    self.visit_expr(&m.receiver);
+                    let rr = self.r(m.receiver.span());
+                    let whole = self.r(m.span());
+                    self.edits.replace(
+                        whole,
+                        vec![
+                            Piece::Lit("(match ".into()),
+                            Piece::Src(rr.0, rr.1),
+                            Piece::Lit(" { Ok(__vx_v) => Ok(Ok(__vx_v)), Err(__vx_e) => Err(__vx_e) })".into()),
                         ],
                         "R-match",
                     );
